@@ -1360,7 +1360,7 @@ pub fn run(cfg: &RunCfg) {
   let n_manifest = corpus.manifest_entries.len() as u64;
   let hand = handwritten_json();
   let n_hand = hand.len() as u64;
-  let n_random: u64 = if cfg.tier == Tier::Quick { 16_000 } else { 500_000 };
+  let n_random: u64 = if cfg.tier == Tier::Quick { 16_000 } else { 200_000 };
   let fixed = n_enum + n_corpus + n_manifest + n_hand;
   let total = fixed + n_random;
   eprintln!("c13: {} enumerated, {} corpus modules, {} corpus manifest entries, {} handwritten, {} generated", n_enum, n_corpus, n_manifest, n_hand, n_random);
